@@ -5,3 +5,4 @@ import XonshCerts.Dead
 import XonshCerts.Cost
 import XonshCerts.Actions
 import XonshCerts.Regen
+import XonshCerts.Total
